@@ -154,8 +154,10 @@ func vfC14Step(st vfC14State, in vfC14In, out vfC14Out) (bool, vfC14State) {
 }
 
 var vfC14Model = porcupine.Model{
-	Init:  func() interface{} { return vfC14State{} },
-	Step:  func(s, in, out interface{}) (bool, interface{}) { return vfC14Step(s.(vfC14State), in.(vfC14In), out.(vfC14Out)) },
+	Init: func() interface{} { return vfC14State{} },
+	Step: func(s, in, out interface{}) (bool, interface{}) {
+		return vfC14Step(s.(vfC14State), in.(vfC14In), out.(vfC14Out))
+	},
 	Equal: func(a, b interface{}) bool { return a.(vfC14State) == b.(vfC14State) },
 	DescribeOperation: func(in, out interface{}) string {
 		i, _ := json.Marshal(in.(vfC14In).Op)
